@@ -96,6 +96,8 @@ class Sequential(SubCheck):
         return st.fixed_dictionaries(
             {
                 'origin': st.sampled_from(['deque', 'deque-file', 'deque-file', 'fanout', 'django', 'evicting-cache']),
+                # the underlying cache's size limit is lowered below what it already occupies: a Deque must not evict anyway
+                'pressure': st.booleans(),
                 'maxlen': st.sampled_from([None, None, 0, 1, 3]),
                 'ops': st.lists(seq_ops(), min_size=1, max_size=40 if tier == 'quick' else 100),
             }
@@ -125,6 +127,8 @@ class Sequential(SubCheck):
             c0 = diskcache.Cache(path, size_limit=1000, eviction_policy='least-recently-stored', disk_min_file_size=8)
             c0.close()
             dq = diskcache.Deque(directory=path, maxlen=maxlen)
+        if case.get('pressure'):
+            dq.cache.reset('size_limit', 1)
         md = collections.deque(maxlen=maxlen)
         kinds = set()
         positional = False
@@ -257,7 +261,7 @@ class Sequential(SubCheck):
                 if strict(got) != strict(want):
                     fail(name + '/contents', 'after %s: Deque %s, collections.deque %s' % (short(op), short(got, 300), short(want, 300)))
             nontrivial = (len(kinds) >= 3 and positional) or persisted
-            return {'nontrivial': nontrivial, 'classes': ['origin=' + origin, 'maxlen=%r' % (case['maxlen'],)]}
+            return {'nontrivial': nontrivial, 'classes': ['origin=' + origin, 'maxlen=%r' % (case['maxlen'],)] + (['size-pressure'] if case.get('pressure') else [])}
         finally:
             try:
                 dq.cache.close()
